@@ -98,6 +98,28 @@ var c07Statuses = []int{200, 200, 200, 201, 204, 301, 302, 304, 400, 404, 418, 5
 
 var c07Repeatable = map[string]bool{"X-Custom-A": true, "Accept": true, "Cache-Control": true, "X-MiXeD-CaSe": true, "Set-Cookie": true, "X-Up-A": true, "Vary": true}
 
+// Upgrade requests. fabio hands a request whose Upgrade field says "websocket" or "Websocket" to a handler of its own
+// (it writes the request to the upstream itself and relays the answer as bytes); any other spelling travels through
+// httputil.ReverseProxy, which knows protocol upgrades as well. Either way it is a request in the sense of the property.
+var c07UpgradeTokens = []string{"websocket", "Websocket", "websocket", "WebSocket"}
+var c07UpgradeConn = []string{"Upgrade", "upgrade", "keep-alive, Upgrade"}
+var c07UpgradeHdrs = []h2Header{{"Sec-WebSocket-Version", "13"}, {"Origin", "http://fabio.sim"}, {"Sec-WebSocket-Protocol", "chat, superchat"},
+	{"Sec-WebSocket-Extensions", "permessage-deflate; client_max_window_bits"}}
+
+// pauses of an upstream before each piece of the body with which it refuses an upgrade: none, and shorter and longer
+// than the second that fabio's websocket handler gives the upstream for the first bytes of its answer
+var c07Pauses = []time.Duration{0, 0, 150 * time.Millisecond, 400 * time.Millisecond, 900 * time.Millisecond, 1100 * time.Millisecond, 3 * time.Second}
+
+// c07Upgrade returns the protocol an upgrade request asks for ("" for an ordinary request).
+func c07Upgrade(rq *h2Req) string {
+	for _, h := range rq.Headers {
+		if h.K == "Upgrade" {
+			return h.V
+		}
+	}
+	return ""
+}
+
 func c07GenHeaders(g *simcore.Tape, names []string, max int) []h2Header {
 	n := g.Intn(max + 1)
 	var hs []h2Header
@@ -223,8 +245,22 @@ func c07Gen(g *simcore.Tape, thorough bool) *c07Scenario {
 			}
 			rq.Query = simcore.Pick(g, c07Queries)
 			rq.Headers = append([]h2Header{{"Accept-Encoding", simcore.Pick(g, []string{"identity", "gzip", "br, gzip"})}}, c07GenHeaders(g, c07HdrNames, 6)...)
+			// an HTTP/1.1 request may ask for a protocol upgrade: same method, path, query and header space, no body (the
+			// bytes after the head of such a request belong to the new protocol); it is the last one on its connection
+			upgrade := !cl.H2 && g.Chance(25)
+			if upgrade {
+				rq.Headers = append(rq.Headers, h2Header{"Connection", simcore.Pick(g, c07UpgradeConn)}, h2Header{"Upgrade", simcore.Pick(g, c07UpgradeTokens)},
+					h2Header{"Sec-WebSocket-Key", "dGhlIHNhbXBsZSBub25jZQ=="})
+				for _, h := range c07UpgradeHdrs {
+					if g.Chance(50) {
+						rq.Headers = append(rq.Headers, h)
+					}
+				}
+				rq.CloseAfter = true
+			}
 			// bodies are usual on POST/PUT/PATCH and legal, if unusual, on every other method but HEAD
-			if (rq.Method != "GET" && rq.Method != "HEAD" && rq.Method != "OPTIONS" && rq.Method != "DELETE") || (rq.Method != "HEAD" && g.Chance(15)) {
+			if upgrade {
+			} else if (rq.Method != "GET" && rq.Method != "HEAD" && rq.Method != "OPTIONS" && rq.Method != "DELETE") || (rq.Method != "HEAD" && g.Chance(15)) {
 				switch g.Intn(4) {
 				case 0:
 				case 1:
@@ -281,7 +317,24 @@ func c07Gen(g *simcore.Tape, thorough bool) *c07Scenario {
 			if g.Chance(12) {
 				rs.Early = g.Range(1, 2)
 			}
-			if sc.Faults && g.Chance(40) {
+			if upgrade {
+				if g.Chance(50) {
+					// the upstream accepts: 101, then a few bytes in both directions (what a tunnel owes is C09's subject;
+					// here the exchange only has to get that far)
+					rs = h2Resp{Status: 101, Early: rs.Early, Headers: append([]h2Header{{"Upgrade", "websocket"}, {"Connection", "Upgrade"}, {"Sec-WebSocket-Accept", "s3pPLMBiTxaQ9kYGzzhZRbK+xOo="}},
+						c07GenHeaders(g, []string{"X-Up-A", "Set-Cookie", "Sec-WebSocket-Protocol", "x-lower", "Server"}, 3)...)}
+					rs.Tunnel = g.Bytes(g.Range(1, 300))
+					rs.TunnelLen = len(rs.Tunnel)
+					rq.Tunnel = g.Bytes(g.Range(1, 300))
+					rq.TunnelLen = len(rq.Tunnel)
+					rs.Chunks = c07GenChunks(g, 300)
+				} else if len(rs.Body) > 0 {
+					// the upstream refuses with the ordinary response generated above; its head goes out at once, the body
+					// at once or in len(Chunks) pieces with a pause before each
+					rs.BodyPause = simcore.Pick(g, c07Pauses)
+				}
+			}
+			if sc.Faults && g.Chance(40) && !upgrade {
 				switch g.Intn(3) {
 				case 0:
 					rs.ResetAt = -1
@@ -601,6 +654,8 @@ func runC07(r *simcore.Run) {
 		r.Trouble("clients did not finish: %v", e.d.Sim.TaskStates())
 		return
 	}
+	// the tails of upgraded connections: the upstream ends see the end of their streams
+	e.d.Run(5000, func() bool { return e.tunnelsOpen() == 0 && !e.net.Pending() })
 	// a client may have its answer before the handler has executed its last statements
 	if obs != nil && !obs.endWatcher(r, e) {
 		return
@@ -628,6 +683,9 @@ func c07Check(r *simcore.Run, e *h2Env, sc *c07Scenario, obs *c07PageObs, cl *h2
 	if res == nil {
 		r.Trouble("no result for %s", rq.ID)
 		return
+	}
+	if c07Upgrade(rq) != "" {
+		what += " asking for an upgrade"
 	}
 	if cl.H2 {
 		what += " over HTTP/2"
@@ -784,6 +842,30 @@ func c07Check(r *simcore.Run, e *h2Env, sc *c07Scenario, obs *c07PageObs, cl *h2
 				continue
 			}
 			r.Fail("request", "header-added", "%s: upstream received header %s=%q that the client did not send", what, k, v)
+		}
+	}
+	// an upgrade request is one by its Upgrade field and the Connection option that names it: both are part of the request
+	// the upstream has to see (the protocol name compares case-insensitively, RFC 9110 7.8; what else Connection lists
+	// stays hop-by-hop)
+	if proto := c07Upgrade(rq); proto != "" {
+		r.Probe("upgrade_request")
+		up := s.Header.Values("Upgrade")
+		named := false
+		for _, v := range s.Header.Values("Connection") {
+			for _, f := range strings.Split(v, ",") {
+				named = named || strings.EqualFold(strings.TrimSpace(f), "upgrade")
+			}
+		}
+		if len(up) != 1 || !strings.EqualFold(up[0], proto) || !named {
+			r.Fail("request", "upgrade-fields", "%s asks for an upgrade to %q: upstream saw Upgrade %q, Connection %q", what, proto, up, s.Header.Values("Connection"))
+		}
+		switch {
+		case rq.Resp.Status == 101:
+			r.Probe("upgrade_accepted")
+		case rq.Resp.BodyPause*time.Duration(max(1, len(rq.Resp.Chunks))) > time.Second:
+			r.Probe("upgrade_refused_body_ends_later_than_1s")
+		default:
+			r.Probe("upgrade_refused")
 		}
 	}
 	// response
